@@ -28,7 +28,8 @@ RULE = ('handler class forests built with event_handler (positional names, '
         'kwargs}.'
         ' Rounds 9-13 added: class mappings modified in place or replaced'
         ' between registrations, handlers that evaluate false, one decorator'
-        ' object used for two classes.')
+        ' object used for two classes.'
+        ' Round 14 added: classes decorated in two steps.')
 ANCHORS = [
     'desper/events.py::EventDispatcher.add_handler',
     'desper/events.py::EventDispatcher.is_handler',
